@@ -385,6 +385,7 @@ impl Wake for TaskWaker {
 }
 
 struct Slot {
+    stalled_until: Option<tokio::time::Instant>,
     fut: Option<LocalTask>,
     waker: Waker,
     prio: u32,
@@ -424,6 +425,21 @@ struct Executor {
     main_done: bool,
     limits: Limits,
     deadline: Pin<Box<tokio::time::Sleep>>,
+    /// tasks that were picked while stalled (fault "task-stalled"): woken again at that instant
+    stalled: Vec<(tokio::time::Instant, usize)>,
+    stall_timer: Option<Pin<Box<tokio::time::Sleep>>>,
+}
+
+thread_local! {
+    static STALL_REQ: RefCell<Vec<(&'static str, u32, u64)>> = RefCell::new(Vec::new());
+}
+
+/// Fault: the task(s) of that name in that group are not scheduled for `ms` virtual milliseconds
+/// (a stalled node / a thread that is not run for a while). What wakes them in the meantime is
+/// remembered: they run again when the stall is over.
+pub fn stall_task(name: &'static str, group: u32, ms: u64) {
+    STALL_REQ.with(|q| q.borrow_mut().push((name, group, ms)));
+    fault("task-stalled");
 }
 
 /// Spawn a simulator-owned task (workload, pump, scripted peer)
@@ -457,6 +473,7 @@ impl Executor {
                     0
                 };
                 self.slots.push(Slot {
+                    stalled_until: None,
                     fut: Some(fut),
                     waker,
                     prio,
@@ -566,6 +583,38 @@ impl Future for Executor {
             );
             return Poll::Ready(());
         }
+        // stall requests and stalls that are over
+        let reqs = STALL_REQ.with(|q| std::mem::take(&mut *q.borrow_mut()));
+        if !reqs.is_empty() {
+            let now = tokio::time::Instant::now();
+            for (name, group, ms) in reqs {
+                let ids: Vec<usize> = with_state(|s| s.tasks.iter().enumerate().filter(|(_, t)| t.alive && t.name == name && t.group == group).map(|(i, _)| i).collect());
+                for id in ids {
+                    this.slots[id].stalled_until = Some(now + Duration::from_millis(ms));
+                }
+            }
+        }
+        if !this.stalled.is_empty() {
+            let now = tokio::time::Instant::now();
+            let mut k = 0;
+            while k < this.stalled.len() {
+                if this.stalled[k].0 <= now {
+                    let (_, id) = this.stalled.remove(k);
+                    this.slots[id].stalled_until = None;
+                    this.slots[id].waker.wake_by_ref();
+                } else {
+                    k += 1;
+                }
+            }
+            match this.stalled.iter().map(|x| x.0).min() {
+                Some(t) => {
+                    let mut sl = Box::pin(tokio::time::sleep_until(t));
+                    let _ = sl.as_mut().poll(cx);
+                    this.stall_timer = Some(sl);
+                }
+                None => this.stall_timer = None,
+            }
+        }
         let id = match this.pick() {
             Some(id) => id,
             None => {
@@ -584,6 +633,17 @@ impl Future for Executor {
                 return Poll::Pending;
             }
         };
+        if let Some(t) = this.slots[id].stalled_until {
+            if tokio::time::Instant::now() < t {
+                // not run now: put aside until the stall is over
+                if !this.stalled.iter().any(|x| x.1 == id) {
+                    this.stalled.push((t, id));
+                }
+                cx.waker().wake_by_ref();
+                return Poll::Pending;
+            }
+            this.slots[id].stalled_until = None;
+        }
         let steps = with_state(|s| {
             s.steps += 1;
             s.sched_hash = mix(s.sched_hash, id as u64);
@@ -855,6 +915,8 @@ where
                 main_done: false,
                 limits,
                 deadline,
+                stalled: Vec::new(),
+                stall_timer: None,
             };
             spawn("main", main());
             ex.absorb_spawns();
